@@ -17,7 +17,7 @@ EmptyAlt == { [t |-> "alt", l |-> x, r |-> [t |-> "empty"]] : x \in { [t |-> "li
             \cup { [t |-> "alt", l |-> [t |-> "empty"], r |-> [t |-> "lit", c |-> "a"]] }
 Quant(X) == { [t |-> q, x |-> x] : q \in {"star", "plus", "opt"}, x \in X }
             \cup { [t |-> "rep", x |-> x, m |-> m] : x \in X, m \in {0, 1, 2} }
-            \cup { [t |-> "rep2", x |-> x, m |-> 2, n |-> 2] : x \in X }
+            \cup { [t |-> "rep2", x |-> x, m |-> 2, n |-> 2] : x \in X } \cup { [t |-> "rep2", x |-> x, m |-> 2, n |-> 10] : x \in X }
             \cup { [t |-> "rep2", x |-> x, m |-> 0, n |-> 1] : x \in X } \cup { [t |-> "rep2", x |-> x, m |-> 1, n |-> 2] : x \in X }
 Bin(X, Y) == { [t |-> b, l |-> x, r |-> y] : b \in {"cat", "alt"}, x \in X, y \in Y }
 Small == { [t |-> "lit", c |-> "a"], [t |-> "lit", c |-> "b"], [t |-> "dot"], [t |-> "set", neg |-> TRUE, items |-> <<[k |-> "c", c |-> "a"]>>] }
